@@ -887,6 +887,11 @@ def run(ctx, n_cases, suite='engine_rerun'):
     st['input_distribution'] = dict(dist)
     st['observed'] = dict(stats)
     st['model_events_compared'] = n_model
+    if hasattr(ctx, 'notes'):
+        ctx.notes.append('observation (outside the property text, not flagged): the fix of the "rerun window" puts a rerun task to RUNNING in the rerun '
+                         'transaction only when it was in ERROR; an engine-level rerun of a CANCELLED task (the REST API refuses it) still leaves the '
+                         'task CANCELLED until its start request is processed, so the window exists for such reruns. All requests generated here '
+                         'are for tasks in ERROR (the property quantifies over failed tasks).')
     if stats.get('expired-in-memory-scheduler-jobs') and hasattr(ctx, 'notes'):
         ctx.notes.append('observation (default scheduler, not a C12 violation): Workflow._recursive_rerun schedules the integrity check of the '
                          'sub-workflow and then locks the parent workflow; acquire_lock() expires the session, so the ScheduledJob object kept in '
